@@ -11,7 +11,9 @@ Extracted on every run (nothing is guessed; anything unexpected => exit 3 with
         - effect on self.data_available   (0 = set false, 1 = set true, 2 = untouched)
         - effect on self.in_copy_mode     (0 / 1 / 2)
         - break kind                      (0 = never, 1 = always, 2 = `if self.buffer.len() <op> N { break; }`)
-      -> recv_arm_sigs : list (Z * (Z * Z * Z))      (tag byte, -1 for the `_` arm)
+        - the two effects as they stand WHEN the arm breaks (an assignment placed after the
+          conditional break is not executed on that path)
+      -> recv_arm_sigs : list (Z * (Z * Z * Z * Z * Z))   (tag byte, -1 for the `_` arm)
     * the two threshold conditions of the 'D' and 'd' arms
       -> recv_break_D / recv_break_d : Z -> bool      (the comparison itself, rendered in Gallina)
     * `self.buffer.put(&message[..])` precedes the match, `self.buffer.clear()` follows the loop
@@ -129,6 +131,12 @@ def effect(text, field):
     return 1 if t else 0 if f else 2
 
 
+def effect_at_break(text, field):
+    """the effect on the path that takes the arm's break: assignments after the break do not count"""
+    m = re.search(r"if\s+self\.buffer\.len\(\)\s*(>=|<=|==|>|<)\s*[0-9_]+\s*\{\s*break\s*;\s*\}", text) or re.search(r"\bbreak\s*;", text)
+    return effect(text[:m.start()], field) if m else effect(text, field)
+
+
 def break_kind(text):
     """-> (kind, op, literal)"""
     m = re.search(r"if\s+self\.buffer\.len\(\)\s*(>=|<=|==|>|<)\s*([0-9_]+)\s*\{\s*break\s*;\s*\}", text)
@@ -186,6 +194,7 @@ def main():
             else:
                 raise Shape("recv(): unexpected arm pattern %r" % pat)
         da, cp = effect(text, "data_available"), effect(text, "in_copy_mode")
+        dab, cpb = effect_at_break(text, "data_available"), effect_at_break(text, "in_copy_mode")
         bk, op, lit = break_kind(text)
         if 90 in tags:
             # the Z arm: must read the status byte, accept exactly T / I / E, fail otherwise
@@ -199,7 +208,7 @@ def main():
             rest = text[:st.start()] + text[st.start() + len("match transaction_state ") + len(sb) + 2:]
             bk, op, lit = break_kind(rest)
         for t in tags:
-            sigs.append((t, da, cp, bk))
+            sigs.append((t, da, cp, bk, dab if bk else da, cpb if bk else cp))
             if bk == 2:
                 conds[t] = (op, lit)
     if sorted(conds) != [68, 100]:
@@ -288,9 +297,9 @@ def main():
          "Definition recv_thr_D : Z := %d.\nDefinition recv_thr_d : Z := %d.\n" % (conds[68][1], conds[100][1]),
          "(* client.rs 'd' arm: `if self.buffer.len() %s %d` *)" % (cop, clit),
          cond("client_copy_flush", cop, clit) + "Definition client_copy_thr : Z := %d.\n" % clit,
-         "(* arms of `match code` in Server::recv: (tag, (data_available, in_copy_mode, break));",
+         "(* arms of `match code` in Server::recv: (tag, (data_available, in_copy_mode, break, data_available when breaking, in_copy_mode when breaking));",
          "   effects: 0 = set false, 1 = set true, 2 = untouched; break: 0 never, 1 always, 2 at the threshold; tag -1 = `_` *)",
-         "Definition recv_arm_sigs : list (Z * (Z * Z * Z)) :=\n  [" + ";\n   ".join("(%d, (%d, %d, %d))" % s for s in sorted(sigs, key=lambda s: (s[0] < 0, s[0]))) + "].\n",
+         "Definition recv_arm_sigs : list (Z * (Z * Z * Z * Z * Z)) :=\n  [" + ";\n   ".join("(%d, (%d, %d, %d, %d, %d))" % s for s in sorted(sigs, key=lambda s: (s[0] < 0, s[0]))) + "].\n",
          "(* 'c' | 'f' arm: the reply is read in `loop { recv; forward; if !is_data_available() { break } }` (%d);" % loops,
          "   CopyDone/CopyFail while the server is not in COPY mode are dropped (%d); a Sync while it is, is dropped (%d) *)" % (outside_dropped, sync_dropped),
          "Definition copy_done_loops : bool := %s.\nDefinition copy_done_outside_copy_dropped : bool := %s.\nDefinition sync_in_copy_dropped : bool := %s.\n"
